@@ -57,6 +57,11 @@ CHECKS = {
             "(a) honest openings of ledger and sub-channels with drawn parameters: both sides must hold byte-identical parameters, ID, participant order and the same fully signed version-0 state equal to the proposal; openings that differ only in one side's nonce share must yield different IDs. (b) 24 kinds of proposals that break one validity condition are re-serialised (decodability enforced) and delivered to a client with or without a matching parent: the proposal handler must not run, no channel may be created, the process must survive (a dead worker is replayed in a fresh process and reported with the panic site) and a later honest proposal must still succeed.",
             "Virtual channel openings between three honest clients are not part of the honest workload yet; virtual proposals appear as mutants only. Invalid allocations are not decodable with the native serializer and therefore outside (b)'s quantifier there.",
             "6/C08"),
+    "C07": ("world", "exploration",
+            "adversary edits the counterparty client's outgoing update / sub-channel funding / settlement / virtual-channel funding and settlement messages in flight and re-signs them; independent acceptability predicate; two- and three-party worlds",
+            "The adversary's node runs a real client for the honest protocol steps; at drawn points its outgoing update message is edited (40+ kinds of edits of state, signature, actor, locked sub-allocations, debit/credit distribution, index maps, signed virtual states), re-signed with its key, passed through the serializer and delivered. The honest side's handler accepts everything. Oracle: the honest client countersigned (acceptance message on the bus or state enabled) only if an independent predicate written from the property statement accepts the update for its class (ordinary / sub-channel funding / settlement / virtual funding / virtual settlement as hub).",
+            "The acceptability predicate (c07.go, c07v.go) is the trusted base. Three-party runs use the asynchronous bus only (the hub answers while holding a std mutex, rule R3).",
+            "6/C07"),
 }
 
 NOT_YET = {}
